@@ -26,6 +26,10 @@ def sh(cmd, cwd, timeout=3600, extra_env=None):
 meta = {"property": prop, "n": int(n), "source": "independent sub-agent given only the property text and a scratch worktree", "ran": []}
 readme = open(os.path.join(sd, "README.md")).read() if os.path.exists(os.path.join(sd, "README.md")) else ""
 needs_miri = "miri test" in readme.lower() or "miri" in open(os.path.join(sd, "demo.rs")).read().lower()[:3000] and "cargo +nightly miri" in readme
+import re
+mm = re.search(r"NEEDS MIRI:\s*\**\s*(yes|no)", readme, re.I)
+if mm:
+    needs_miri = mm.group(1).lower() == "yes"
 if os.environ.get("NEEDS_MIRI") is not None:
     needs_miri = os.environ["NEEDS_MIRI"] == "1"
 sh("git checkout -- . && rm -f tests/seeded_demo.rs", wt)
@@ -82,7 +86,8 @@ if meta["patch_applies"]:
 meta["checks"] = results
 meta["caught_by"] = [c for c, r in results.items() if r["exit"] == 1]
 meta["ran"].append("git -C /repo apply patch.diff; " + "; ".join("./check %s --scale %s" % (c, scale) for c in checks) + "; git -C /repo checkout -- .")
-dst = "/verif/seeded/%s-%s" % (prop, n)
+dst = "/verif/seeded/%s-%s" % (prop, int(n) + int(os.environ.get("STORE_OFFSET", "0")))
+meta["n"] = int(n) + int(os.environ.get("STORE_OFFSET", "0"))
 os.makedirs(dst, exist_ok=True)
 for f in ("patch.diff", "demo.rs", "README.md"):
     if os.path.exists(os.path.join(sd, f)):
